@@ -23,8 +23,11 @@ IN_OPS = {
 }
 
 
+TUPLES = [("(x,[y])", (hlib.SLOT, [hlib.SLOT])), ("{p:(x,{q})}", {"p": (hlib.SLOT, {"q": hlib.SLOT})}), ("[(x,[y])]", [(hlib.SLOT, [hlib.SLOT])])]
+
+
 def shapes():
-    return CONTAINERS + (D3_SPINE if hlib.TIER == "thorough" else [])
+    return CONTAINERS + TUPLES + (D3_SPINE if hlib.TIER == "thorough" else [])
 
 
 def reachable(v, out):
@@ -102,7 +105,7 @@ def alias_in(opi: int, vs: int, ci: int, x: int, y: int, v1: int, v2: int) -> bo
             raise
         except Exception:
             return None
-        snap = obj()
+        snap = plain(obj())  # rebuilt now: a snapshot that aliases the argument would change with it
         n = poke_all(arg if arg is not None else value)
         return snap, n, obj()
 
@@ -167,7 +170,7 @@ def alias_out(oi: int, ci: int, x: int, y: int) -> bool:
             out = obj.get(k0) if which == "dict" else obj[k0]
             del obj[k0]
             must_be_plain = False
-        snap = obj()
+        snap = plain(obj())  # rebuilt now (see alias_in)
         ok_plain = (not must_be_plain) or is_plain(out)
         # mutate what the user holds
         if is_plain(out):
